@@ -11,6 +11,7 @@ import (
 	"fmt"
 	"iter"
 	"reflect"
+	"slices"
 	"strings"
 
 	"github.com/octohelm/gengo/pkg/gengo"
@@ -518,6 +519,36 @@ func checkParts(c *core.Ctx, ks []int) {
 	}
 	if pan != nil || got != want {
 		c.Fail("", cs, "Snippets(%v): got %q (panic=%v) want %q", names(ks), got, pan, want)
+	}
+	// the same parts from sequences that can be run only ONCE (a cursor over a queue) or that number their
+	// parts as they go: rendered once, as a top-level snippet, as a template argument and nested in a list -
+	// every part exactly once, none lost to a peek
+	for mode := 0; mode < 3; mode++ {
+		c.Trans(1)
+		queue := append([]snippet.Snippet(nil), ps...)
+		produced := 0
+		oneShot := snippet.Snippets(func(yield func(snippet.Snippet) bool) {
+			for len(queue) > 0 {
+				p := queue[0]
+				queue = queue[1:]
+				produced++
+				if !yield(p) {
+					return
+				}
+			}
+		})
+		var top snippet.Snippet = oneShot
+		w := want
+		switch mode {
+		case 1:
+			top, w = snippet.T("[@xs']", snippet.Arg("xs", oneShot)), "["+want+"]"
+		case 2:
+			top, w = snippet.Snippets(slices.Values([]snippet.Snippet{snippet.Block("<"), oneShot, snippet.Block(">")})), "<"+want+">"
+		}
+		g, _, p := renderOnce(top)
+		if p != nil || g != w || produced != len(ps) {
+			c.Fail("", Case{Kind: "Snippets", Args: ks, Bind: mode + 1}, "a single-use Snippets sequence of %v (mode %d: 0 top level, 1 template argument, 2 nested in a list) rendered %q (panic=%v, %d of %d parts produced), want %q", names(ks), mode, g, p, produced, len(ps), w)
+		}
 	}
 	// Fragments of each part alone: concatenation of its fragments, nothing for nil parts
 	for _, k := range ks {
